@@ -89,6 +89,19 @@ class KeysView(list):
     """dict.keys(): a list (insertion order) that also supports the set operators."""
 
 
+def _re_fold(attr, a, k=None):
+    """Constant folding of a pure regular-expression function on literal arguments."""
+    import re as _re_mod
+    if all(isinstance(x, (str, int)) for x in a) and not k:
+        r = getattr(_re_mod, attr)(*a)
+        if attr in ("match", "fullmatch", "search"):
+            return None if r is None else ConstMatch(r)
+        if attr == "finditer":
+            return [ConstMatch(m) for m in r]
+        return r
+    raise Undecided(f"re.{attr} on symbolic text")
+
+
 class LazyGen:
     """A generator expression: elements are evaluated when (and only as far as) they are consumed."""
 
@@ -328,16 +341,19 @@ class Interp:
                 f0, pre, prek = a[0], list(a[1:]), dict(k)
                 return PyCallable(lambda it2, a2, k2: it2.call(f0, pre + list(a2), dict(prek, **k2)))
             return PyCallable(_partial)
-        if module == "re" and attr in ("split", "match", "fullmatch", "sub", "findall"):
+        if module == "re" and attr in ("split", "match", "fullmatch", "sub", "findall", "finditer", "search"):
             def _re(it, a, k, attr=attr):
-                import re as _re_mod
-                if all(isinstance(x, (str, int)) for x in a):
-                    r = getattr(_re_mod, attr)(*a)  # constant folding of a pure function on literal arguments
-                    if attr in ("match", "fullmatch"):
-                        return None if r is None else ConstMatch(r)
-                    return r
-                raise Undecided(f"re.{attr} on symbolic text")
+                return _re_fold(attr, a, k)
             return PyCallable(_re)
+        if module == "re" and attr == "compile":
+            def _rc(it, a, k):
+                if all(isinstance(x, (str, int)) for x in a):
+                    return ConstRegex(a)
+                raise Undecided("re.compile of a non-literal pattern")
+            return PyCallable(_rc)
+        if module == "re" and attr in ("IGNORECASE", "I", "VERBOSE", "X", "MULTILINE", "M", "DOTALL", "S"):
+            import re as _re_mod
+            return int(getattr(_re_mod, attr))
         if module == "collections" and attr == "deque":
             return PyCallable(lambda it, a, k: list(it.iterate(a[0])) if a else [])
         if module == "itertools" and attr == "count":
@@ -778,7 +794,7 @@ class Interp:
                 except IndexError:
                     raise PyRaise("IndexError", target)
             elif isinstance(base, dict):
-                base[k] = v
+                base[_h(k)] = v
             elif isinstance(base, Unknown):
                 pass
             else:
@@ -1534,6 +1550,14 @@ class Interp:
         if name == "itertools.zip_longest":
             import itertools
             return list(itertools.zip_longest(*[self.iterate(x) for x in a], fillvalue=kwargs.get("fillvalue")))
+        if name == "itertools.chain":
+            out = []
+            for x in a:
+                out.extend(self.iterate(x))
+            return out
+        if name == "itertools.islice":
+            items = self.iterate(a[0])
+            return items[slice(*[None if v is None else _idx(v) for v in a[1:]])]
         if name == "iter":
             return a[0] if isinstance(a[0], IterObj) else IterObj(self.iterate(a[0]))
         if name == "next":
@@ -1605,6 +1629,10 @@ class Interp:
             x = simplify_num(a[0])
             if not isinstance(x, RF) and len(a) == 1:
                 return round(x)
+            if not isinstance(x, RF) and len(a) == 2 and isinstance(a[1], int) and not isinstance(a[1], bool):
+                # exact decimal rounding (half to even) of a constant
+                r = round(Fraction(x), a[1])
+                return int(r) if isinstance(r, Fraction) and r.denominator == 1 else r
             return simplify_num(fn_atom("round", *a))
         if name == "float":
             x = a[0]
@@ -1765,6 +1793,8 @@ class Interp:
             return Unknown("isinstance of unknown")
         if isinstance(v, Ext) and hasattr(v, "sym_isinstance"):
             return v.sym_isinstance(self, t)
+        if isinstance(v, (Ext, SymStr)) and isinstance(t, Builtin) and t.name in ("float", "int", "str", "tuple", "list", "dict", "bool"):
+            return t.name == "str" and (isinstance(v, SymStr) or bool(getattr(v, "stands_for_str", False)))
         if isinstance(t, ClassRef):
             if isinstance(v, Rec):
                 return any((m.name, cd.name) == (t.module, t.name) for m, cd in self.class_mro(v.cls))
@@ -1828,6 +1858,37 @@ class Ext:
         raise Undecided(f"attribute {attr} of {type(self).__name__}")
 
 
+class ConstRegex(Ext):
+    """re.compile(<literal>): methods are folded on literal arguments."""
+
+    def __init__(self, args):
+        self.args = tuple(args)
+
+    def sym_copy(self):
+        return self
+
+    def sym_truth(self, it):
+        return True
+
+    def sym_getattr(self, it, attr):
+        if attr in ("split", "match", "fullmatch", "sub", "findall", "finditer", "search"):
+            import re as _re_mod
+
+            def f(i, a, k):
+                if all(isinstance(x, (str, int)) for x in a) and not k:
+                    r = getattr(_re_mod.compile(*self.args), attr)(*a)
+                    if attr in ("match", "fullmatch", "search"):
+                        return None if r is None else ConstMatch(r)
+                    if attr == "finditer":
+                        return [ConstMatch(m) for m in r]
+                    return r
+                raise Undecided(f"pattern.{attr} on symbolic text")
+            return PyCallable(f)
+        if attr == "pattern":
+            return self.args[0]
+        raise Undecided(f"compiled pattern attribute {attr}")
+
+
 class _Missing:
     pass
 
@@ -1871,7 +1932,7 @@ def _idx(k):
 
 
 def _h(x):
-    if isinstance(x, list):
+    if isinstance(x, (list, tuple)) and not hasattr(x, "_fields"):
         return tuple(_h(i) for i in x)
     if isinstance(x, RF):
         v = simplify_num(x)
@@ -1903,10 +1964,14 @@ def _is_integer(b):
 def _str_method(b: str, at: str, a):
     if at in ("upper", "lower", "strip", "islower", "isupper", "startswith", "endswith", "replace", "split", "count",
               "partition", "join", "format", "lstrip", "rstrip", "isdigit", "find"):
-        if any(_has_sym(x) or isinstance(x, Unknown) for x in a):
+        if any(_has_sym(x) or isinstance(x, Unknown) for x in a) and not (at == "join" and any(hasattr(x, "sym_join") for x in a[0])):
             raise Undecided("string method with symbolic argument")
         if at == "join":
-            return b.join(list(a[0]))
+            items = list(a[0])
+            if any(hasattr(x, "sym_join") for x in items):
+                first = next(x for x in items if hasattr(x, "sym_join"))
+                return first.sym_join(b, items)
+            return b.join(items)
         return getattr(b, at)(*a)
     raise Undecided(f"str.{at}")
 
